@@ -312,7 +312,8 @@ func c12Body() func(h []dsim.Rec) {
 		return nil
 	}
 	// the event channel is closed: ranging over it ends
-	if consMode != 3 && !cons.stopped {
+	cStopped, _ := cons.state()
+	if consMode != 3 && !cStopped {
 		e.mu.Lock()
 		ended := cons.ended
 		e.mu.Unlock()
@@ -351,7 +352,8 @@ func c12Body() func(h []dsim.Rec) {
 	e.mu.Lock()
 	ok := drained
 	e.mu.Unlock()
-	if !ok && (consMode == 3 || cons.stopped) {
+	cStopped, _ = cons.state()
+	if !ok && (consMode == 3 || cStopped) {
 		dsim.Failf("events-closed", "after Close, receiving from Events() blocks instead of reporting a closed channel")
 		return nil
 	}
